@@ -57,7 +57,8 @@ MemIter(C, hp, p, hs, s, d) ==
 
 (* ---- transcription: rocks_db.rs `_iter_store` (raw iterator = seek / seek_for_prev on the sorted keys) ---*)
 \* next_prefix: smallest byte string greater than every string with the prefix; <<>> encodes None (overflow).
-\* (fix: commit "fix: rocksdb reverse prefix iteration ..." — before it the 0xFF bytes were not truncated)
+\* (/repo commit ef7854c556 "fix: rocksdb reverse prefix iteration ..."; before it trailing 0xFF bytes were not
+\* truncated and a key equal to the successor ended the iteration at once)
 RECURSIVE NextPrefix(_)
 NextPrefix(p) ==
   IF p = <<>> THEN <<>>
@@ -75,8 +76,13 @@ ReversePrefixIter(T, p) ==
 RocksIter(C, hp, p, hs, s, d) ==
   LET T == Sorted(C) IN
   CASE ~hp /\ ~hs -> IF d = "f" THEN T ELSE Reverse(T)               \* IteratorMode::Start / End
+    \* forward: prefix_same_as_start, or total_order_seek when the prefix is shorter than the column's fixed
+    \* prefix extractor (/repo commit 742356ea35; before it such a prefix crashed inside RocksDB) - both are
+    \* a seek to the prefix followed by take_while
     [] hp /\ ~hs  -> IF d = "r" THEN ReversePrefixIter(T, p) ELSE TakeWhilePrefix(SeekFwd(T, p), p)
     [] ~hp /\ hs  -> IF d = "f" THEN SeekFwd(T, s) ELSE SeekBwd(T, s)
+    \* (total_order_seek when the prefix is shorter than the column's fixed prefix extractor, /repo commit
+    \* 8d30af0512; before it prefix-seek mode hid matching keys of other prefix sections once they were in SSTs)
     [] hp /\ hs   -> IF ~HasPrefix(s, p) THEN <<>>
                      ELSE TakeWhilePrefix(IF d = "f" THEN SeekFwd(T, s) ELSE SeekBwd(T, s), p)
 BackendIter(b, C, hp, p, hs, s, d) ==
@@ -96,7 +102,10 @@ Conflict(L) == \E i \in 1..Len(L), j \in 1..Len(L) :
                  i < j /\ \E o1 \in OpSet(L[i]), o2 \in OpSet(L[j]) : o1.c = o2.c /\ o1.k = o2.k
 
 \* All three backends: a conflicting list is rejected and nothing is written, otherwise the change sets
-\* are applied in order.  How they get there differs (kept as separate operators on purpose):
+\* are applied in order.  How they get there differs (kept as separate operators on purpose).
+\* (/repo commits 4d3e7351a6: MemoryStore used to apply the change sets before it found the conflict;
+\*  da2e4690c3: HistoricalRocksDB used to collect the list into a map keyed by column, so a later change set
+\*  replaced an earlier one's writes to the same column and conflicts went unnoticed.)
 \*  MemoryStore: conflict pre-check, then per change set insert/remove under the column locks
 \*  RocksDb: one WriteBatch filled change set by change set with a conflict finder, then a single write
 \*  HistoricalRocksDB: policy NoRewind -> RocksDb path; otherwise the list is MERGED per column into one
@@ -142,6 +151,14 @@ Commit(L, aslist) ==
   /\ q' = NoQuery            \* a result describes the content it was taken from
   /\ UNCHANGED backend
 
+\* close the store and open it again from the same directory (not for the in-memory store): the content
+\* is durable, and is afterwards read from SST files instead of the memtable
+Reopen ==
+  /\ backend \notin {"none", "mem"}
+  /\ q' = NoQuery
+  /\ UNCHANGED vars
+  /\ act' = [name |-> "Reopen"]
+
 Query(c, hp, p, hs, s, d) ==
   /\ backend # "none"
   /\ InContract(hp, p, hs, s)
@@ -161,6 +178,7 @@ Next ==
   \/ \E b \in Backends : New(b)
   \/ \E cs \in CSeqs : Commit(<<cs>>, FALSE)
   \/ \E L \in Lists : Commit(L, TRUE)
+  \/ Reopen
   \/ \E c \in Cols, op \in OptKeys, os \in OptKeys, d \in {"f", "r"} : Query(c, op[1], op[2], os[1], os[2], d)
 
 Spec == Init /\ [][Next]_<<vars, q, act>>
